@@ -308,7 +308,7 @@ def run_job(job):
         ops = seq_ops(dict(job, shard=[0, 1]))
         table = SMALL_SCEN if job["name"].startswith("concurrent-small") else CONCUR_SCEN
         scens = [{"threads": [ops[i] for i in sc[0]], "warm": [ops[i] for i in sc[1]], "post": [ops[i] for i in (sc[2] if len(sc) > 2 else ())]} for sc in table]
-        return run_concur_job(job, scens, run_case, PROPERTY, SMALL_FILES if job["name"].startswith("concurrent-small") else CONCUR_FILES)
+        return run_concur_job(job, scens, run_case, PROPERTY, SMALL_FILES if job["name"].startswith("concurrent-small") else CONCUR_FILES, alphabet=ops)
     if job["part"] == "longhist":
         from vf.runner import run_long_job
         return run_long_job(job, long_ops(job), run_case)
